@@ -117,6 +117,17 @@ Proof.
   apply max_req_lim. intros; apply E, in_or_app; now right.
 Qed.
 
+Lemma parse_int_raw_some s n : parse_int s = Some n -> parse_int_raw s = n.
+Proof.
+  unfold parse_int, parse_int_raw. destruct s as [|a r]; [discriminate|].
+  destruct (if (N_of_ascii a =? 43)%N then (false, r) else if (N_of_ascii a =? 45)%N then (true, r) else (false, String a r)) as [neg body].
+  destruct body as [|b body']; [discriminate|].
+  destruct (digits (String b body') 0) as [k|]; [|discriminate].
+  destruct neg.
+  - destruct (k <=? two63)%N; intros H; inversion H; reflexivity.
+  - destruct (k <? two63)%N; intros H; inversion H; reflexivity.
+Qed.
+
 Lemma parse_int_nonempty s n : parse_int s = Some n -> String.eqb s "" = false.
 Proof. destruct s; [discriminate|reflexivity]. Qed.
 
@@ -148,6 +159,7 @@ Proof.
   - (* memory *)
     destruct (parse_int ms) as [m|] eqn:EMs; [|discriminate].
     pose proof (parse_int_range _ _ EMs) as Rm.
+    rewrite (parse_int_raw_some _ _ EMs).
     rewrite Hm, Ce, Cb. rewrite orb_true_r. cbn [negb g_type].
     assert (Hlt : (m <? 9223372036854775808) = true) by (apply Z.ltb_lt; lia).
     rewrite Hlt. cbn [andb].
